@@ -4,7 +4,7 @@ from __future__ import annotations
 
 import re
 
-from .names import descendants, pairwise_unrelated
+from .names import descendants, pairwise_unrelated, related
 
 
 def layer_modules(defn, mods):
@@ -44,18 +44,29 @@ def strict_domain(layers, cfg, mods):
         return False, "subject-among-objects"
     sets = {}
     roots = []
+    per_layer = {}
     for name, defn in layers.items():
         s = layer_modules(defn, mods)
         if s is None:
             return False, "layer-without-modules"
         sets[name] = s
+        mine = []
         for kind, text in defn:
             if kind == "named":
-                roots.append(text)
+                mine.append(text)
             else:
-                roots.extend(m for m in mods if re.match(text, m))
-    if len(set(roots)) != len(roots) or not pairwise_unrelated(roots):
+                mine.extend(m for m in mods if re.match(text, m))
+        per_layer[name] = mine
+        roots.extend(mine)
+    if len(set(roots)) != len(roots):
         return False, "related-layer-modules"
+    # a layer is the union of its listed modules and their descendants, so listing a module next to one of its own
+    # ancestors inside ONE layer is redundant but well defined; related modules in DIFFERENT layers are not
+    names = list(per_layer)
+    for i, a in enumerate(names):
+        for b in names[i + 1 :]:
+            if any(related(x, y) for x in per_layer[a] for y in per_layer[b]):
+                return False, "related-layer-modules"
     return True, ""
 
 
@@ -96,3 +107,54 @@ def shape(cfg):
     if cfg.get("anything"):
         return f"should_not/{cfg['dir']}/any_layer"
     return f"{cfg['verb']}/{cfg['dir']}/{'except' if cfg['exc'] else 'plain'}"
+
+
+def report(layers, cfg, mods, imps):
+    """-> (passes, positive import pairs, negative lines, layer_of) by the documented semantics: the violating set of
+    a failing layer rule (forbidden imports between the subject layer and an object layer / something else) and, for
+    missing required access, (subject layer, object layers it is missing for, 'anything else' flag)."""
+    sets = {n: layer_modules(d, mods) for n, d in layers.items()}
+    ss = sets[cfg["subject"]]
+    objs = [] if cfg.get("anything") else list(cfg["objects"])
+    verb, exc = cfg["verb"], cfg["exc"]
+    if cfg.get("anything"):
+        verb, exc = "should_not", True
+    oset = set().union(*[sets[o] for o in objs]) if objs else set()
+    imp = cfg["dir"] == "import"
+
+    def edges(o):
+        so = sets[o]
+        if imp:
+            return {(a, b) for a, b in imps if a in ss and b in so}
+        return {(a, b) for a, b in imps if a in so and b in ss}
+
+    if imp:
+        oth = {(a, b) for a, b in imps if a in ss and b not in ss and b not in oset}
+    else:
+        oth = {(a, b) for a, b in imps if b in ss and a not in ss and a not in oset}
+    forb_edge = (verb == "should_not" and not exc) or (verb == "should_only" and exc)
+    forb_oth = (verb == "should_not" and exc) or (verb == "should_only" and not exc)
+    req_edge = verb in ("should", "should_only") and not exc
+    req_oth = verb in ("should", "should_only") and exc
+    ok, pos, neg = True, set(), set()
+    if forb_edge:
+        for o in objs:
+            pos |= edges(o)
+    if forb_oth:
+        pos |= oth
+    if pos:
+        ok = False
+    if req_edge:
+        miss = frozenset(o for o in objs if not edges(o))
+        if miss:
+            ok = False
+            neg.add((cfg["subject"], miss, False))
+    if req_oth and not oth:
+        ok = False
+        neg.add((cfg["subject"], frozenset(objs), True))
+
+    def layer_of(m):
+        hit = [n for n, s in sets.items() if m in s]
+        return hit[0] if len(hit) == 1 else None
+
+    return ok, pos, neg, layer_of
